@@ -78,6 +78,8 @@ def recipes_for(built, plan, si=0):
   base = []
   if plan.get('shipped'):
     for n, r in modes.shipped_recipes().items():
+      if isinstance(plan['shipped'], (list, tuple)) and n not in plan['shipped']:
+        continue
       base.append((f'R1:{n}', r, 'shipped'))
   for m in plan.get('uniform', []):
     base.append((f'R2:{m}', [modes.rule('.*', '*', m)], 'uniform'))
@@ -127,7 +129,10 @@ def graph_cases(spec, extra=None, sigrev=False, sigrev_extra=None):
       if extra:
         c.update(extra)
       yield c
-      if sigrev and (g['subgraphs'][0]['exports'] or any(
+      if sigrev and all(
+          o['v'] == irm.FIRST_VARIANT[o['t']][0]
+          for o in g['subgraphs'][0]['ops']) and (
+              g['subgraphs'][0]['exports'] or any(
           o['t'] in ('SPLIT', 'EMBEDDING_LOOKUP')
           for o in g['subgraphs'][0]['ops'])):
         # same graph, signature entries listed in the opposite order
